@@ -107,6 +107,7 @@ func (clnt *Clnt) Rpcnb(r *Req) error {
 	r.prev = clnt.reqlast
 	clnt.reqlast = r
 	clnt.Unlock()
+	verifPoint("rpcnb.linked", clnt, uint32(tag), 0)
 
 	select {
 	case clnt.reqout <- r:
